@@ -848,12 +848,78 @@ theorem column_spec {split : Nat} (hsp : 0 < split) (isCounter : Bool) {it : Any
   · exact cutWindows_ne _ _
   · rw [hflat]; exact hpos
 
+/-- count samples of a chunk -/
+def cnt (c : AggrChk) : Nat := (agg 0 c).length
+
+theorem zip5_cnt : ∀ (ws : List (List Sample)) (a b c d : List (Option (List Sample))),
+    a.length = ws.length → b.length = ws.length → c.length = ws.length → d.length = ws.length →
+    ((zip5 ws a b c d).map cnt).sum = (ws.map List.length).sum ∧ (ws ≠ [] → zip5 ws a b c d ≠ []) := by
+  intro ws
+  induction ws with
+  | nil => intro a b c d _ _ _ _; simp [zip5]
+  | cons w ws ih =>
+    intro a b c d ha hb hc hd
+    cases a with
+    | nil => simp at ha
+    | cons a0 a =>
+    cases b with
+    | nil => simp at hb
+    | cons b0 b =>
+    cases c with
+    | nil => simp at hc
+    | cons c0 c =>
+    cases d with
+    | nil => simp at hd
+    | cons d0 d =>
+      simp only [List.length_cons, Nat.add_right_cancel_iff] at ha hb hc hd
+      obtain ⟨i1, _⟩ := ih a b c d ha hb hc hd
+      simp only [zip5, List.map_cons, List.sum_cons, i1]
+      exact ⟨by simp [cnt, agg, AggrChk.get], by simp⟩
+
+theorem foldl_pm2_length : ∀ (ls : List (List Sample)) (l : List Sample),
+    (ls.foldl (pm2 minT) l).length ≤ l.length + (ls.map List.length).sum := by
+  intro ls
+  induction ls with
+  | nil => intro l; simp
+  | cons b ls ih =>
+    intro l
+    have h1 := ih (pm2 minT l b)
+    have h2 := pm2_length_le minT l b
+    simp only [List.foldl_cons, List.map_cons, List.sum_cons]
+    omega
+
+theorem foldl_pm2_ne : ∀ (ls : List (List Sample)) (l : List Sample), l ≠ [] →
+    ls.foldl (pm2 minT) l ≠ [] := by
+  intro ls
+  induction ls with
+  | nil => intro l h; exact h
+  | cons b ls ih =>
+    intro l h
+    simp only [List.foldl_cons]
+    apply ih
+    intro he
+    cases l with
+    | nil => exact h rfl
+    | cons x ta =>
+      cases b with
+      | nil => rw [pm2] at he; simp at he
+      | cons y tb => rw [pm2] at he; split at he <;> simp at he
+
+theorem sum_length_flatten : ∀ (ws : List (List Sample)), (ws.map List.length).sum = ws.flatten.length := by
+  intro ws
+  induction ws with
+  | nil => rfl
+  | cons w ws ih =>
+    simp only [List.map_cons, List.sum_cons, List.flatten_cons, List.length_append]
+    omega
+
 /-- **The merge of one group of overlapping well-formed chunks** (`om.iterator(base)` drained,
     with the repaired `toChunk`) consists of well-formed chunks: in every output chunk sum, min
     and max have exactly the count's timestamps and the counter has them plus its last one. -/
 theorem aggrOut_wf {split : Nat} (hsp : 0 < split) (ovl : List AggrChk) (base : AggrChk)
     (hne : ovl ≠ []) (hwf : ∀ c ∈ ovl ++ [base], chunkWF c = true) :
-    ∃ out, aggrOut true true split ovl base = some out ∧ ∀ c ∈ out, chunkWF c = true := by
+    ∃ out, aggrOut true true split ovl base = some out ∧ (∀ c ∈ out, chunkWF c = true) ∧ out ≠ [] ∧
+      (out.map cnt).sum ≤ ((ovl ++ [base]).map cnt).sum := by
   -- the chunk list has at least two elements
   obtain ⟨c0, ovl', rfl⟩ : ∃ c0 ovl', ovl = c0 :: ovl' := by
     cases ovl with
@@ -909,16 +975,36 @@ theorem aggrOut_wf {split : Nat} (hsp : 0 < split) (ovl : List AggrChk) (base : 
     column_spec hsp false hg2 (hF2 2 (by omega)) (hS 2 (by omega)) (hP 2 (by omega)),
     column_spec hsp false hg3 (hF2 3 (by omega)) (hS 3 (by omega)) (hP 3 (by omega)),
     column_spec hsp true hg4 (hF2 4 (by omega)) (hS 4 (by omega)) (hP 4 (by omega))]
-  refine ⟨_, rfl, ?_⟩
-  apply zip5_wf
-  · exact cutWindows_ts _ _ _ (hF2 1 (by omega))
-  · exact cutWindows_ts _ _ _ (hF2 2 (by omega))
-  · exact cutWindows_ts _ _ _ (hF2 3 (by omega))
-  · exact cutWindows_ts _ _ _ (hF2 4 (by omega))
-  · intro w hw
-    have hflat := cutWindows_flatten hsp (L 0).length (L 0) (Nat.le_refl _)
-    have hsub : w.Sublist (L 0) := by rw [← hflat]; exact List.sublist_flatten_of_mem hw
-    exact ⟨cutWindows_ne _ _ w hw, List.Pairwise.sublist hsub hS0,
-      fun x hx => hP 0 (by omega) x (hsub.subset hx)⟩
+  have hflat0 := cutWindows_flatten hsp (L 0).length (L 0) (Nat.le_refl _)
+  have hlenw : ∀ i, i < 5 → (cutWindows split (L 0).length (L i)).length = (cutWindows split (L 0).length (L 0)).length := by
+    intro i hi
+    have := congrArg List.length (cutWindows_ts (split := split) (L 0).length (L i) (L 0) (hF2 i hi))
+    simpa using this
+  obtain ⟨hz1, hz2⟩ := zip5_cnt (cutWindows split (L 0).length (L 0))
+    ((cutWindows split (L 0).length (L 1)).map (finishOf false))
+    ((cutWindows split (L 0).length (L 2)).map (finishOf false))
+    ((cutWindows split (L 0).length (L 3)).map (finishOf false))
+    ((cutWindows split (L 0).length (L 4)).map (finishOf true))
+    (by rw [List.length_map]; exact hlenw 1 (by omega)) (by rw [List.length_map]; exact hlenw 2 (by omega))
+    (by rw [List.length_map]; exact hlenw 3 (by omega)) (by rw [List.length_map]; exact hlenw 4 (by omega))
+  have hL0ne : L 0 ≠ [] := foldl_pm2_ne _ _ (chunkWF_agg (hwf' c0 (by simp))).2.2.1
+  refine ⟨_, rfl, ?_, ?_, ?_⟩
+  · apply zip5_wf
+    · exact cutWindows_ts _ _ _ (hF2 1 (by omega))
+    · exact cutWindows_ts _ _ _ (hF2 2 (by omega))
+    · exact cutWindows_ts _ _ _ (hF2 3 (by omega))
+    · exact cutWindows_ts _ _ _ (hF2 4 (by omega))
+    · intro w hw
+      have hsub : w.Sublist (L 0) := by rw [← hflat0]; exact List.sublist_flatten_of_mem hw
+      exact ⟨cutWindows_ne _ _ w hw, List.Pairwise.sublist hsub hS0,
+        fun x hx => hP 0 (by omega) x (hsub.subset hx)⟩
+  · apply hz2
+    intro he
+    rw [he] at hflat0
+    exact hL0ne hflat0.symm
+  · rw [hz1, sum_length_flatten, hflat0, hcs]
+    have := foldl_pm2_length ((c1 :: T').map (agg 0)) (agg 0 c0)
+    simp only [List.map_cons, List.sum_cons, cnt, List.map_map, Function.comp_def] at this ⊢
+    exact this
 
 end Thanos.Dedup
